@@ -9,6 +9,7 @@ RULE = ("online-generated valid histories; at every position a sample of the inv
         "raising or read-only call the full snapshot must equal the one before; at checkpoints build / switch_register "
         "/ abstract-repr / legacy-JSON replicas must have the original's timeline. non-trivial = distinct "
         "(case, invalid-call kind, op, rejection reason) where the call raised on a sequence with a non-empty timeline")
+RULE += " Later additions: every third history declares a second variable whose size and type vary from case to case under one name."
 ASSUMPTIONS = ["the snapshot covers slots, EOM blocks, phase trackers, mode flags, measurement, call-log lengths/names, variables",
                "replica checks are skipped after a partial-effect raise in the same history (reported once, at its cause)"]
 TIERS = {"quick": dict(cases=500, shards=8, case_timeout=180, shard_timeout=900),
